@@ -154,7 +154,7 @@ def _recurrence_plot(
 def _twins_s(
     int N, int n_time, int dimension, float threshold, int min_dist,
     ndarray[DFIELD_t, ndim=3] embedding_array,
-    ndarray[ADJ_t, ndim=2] R, ndarray[DEGREE_t, ndim=1] nR,
+    ndarray[ADJ_t, ndim=2] R, ndarray[NODE_t, ndim=1] nR,
     twins):
 
     cdef:
@@ -167,7 +167,7 @@ def _twins_s(
         for j in range(n_time):
             for k in range(j+1):
                 R[j, k] = R[k, j] = 1
-            nR[j] = <DEGREE_t> n_time
+            nR[j] = <NODE_t> n_time
 
         # Calculate the recurrence matrix for time series i
         for j in range(n_time):
